@@ -384,7 +384,7 @@ def run(tier, seed):
     r.stats["runs_by_scenario_kind"] = kinds
     r.stats["runs_ending_with_exactly_the_editor_content"] = nsame
     r.stats["runs_ending_otherwise_scan_not_before_edit"] = ne9
-    return r.finish(RULE, assumptions=[
+    return r.finish(RULE, extra_cov={"traces_validated_against_impl": r.corr_checked}, assumptions=[
         "yield points are the blocking shard-lock acquisitions of DashMap (see C09)",
         "the scan's visit is driven through the verif-hooks wrapper of analyze_file_fresh, not through scan_workspace itself (rayon is not under the scheduler); the real initialize+didOpen race over stdio is exercised separately in the thorough tier"])
 
